@@ -1,6 +1,6 @@
 (* Dispatch.v — the single entry point the extracted driver calls:
    component number and flat input -> flat output. *)
-From RaftModel Require Import Base LogCache Config Commitment Compaction Node NodeCodec Candidate Lease Leader LeaderCodec Pipeline LoopTable Futures Notify FileSnap Cluster Replicate Converge ClusterLog ClusterCommit.
+From RaftModel Require Import Base LogCache Config Commitment Compaction Node NodeCodec Candidate Lease Leader LeaderCodec Pipeline LoopTable Futures Notify FileSnap Cluster Replicate Converge ClusterLog ClusterCommit ClusterSnap.
 Open Scope N_scope.
 
 (* the table generated from the Go source on this run *)
@@ -22,6 +22,7 @@ Definition run_case (comp : N) (inp : list N) : list N :=
   | 101 => run_clusterlog inp
   | 102 => run_clustercommit inp
   | 103 => run_clustersnap inp
+  | 104 => run_clusterinstall inp
   | 12 => run_replseq inp
   | 1201 => run_converge inp
   | 15 => run_fsprogram inp
